@@ -18,6 +18,7 @@ import (
 	"verif/harness/gen"
 	"verif/harness/guard"
 	"verif/harness/model"
+	"verif/harness/ref"
 	"verif/harness/vf"
 )
 
@@ -33,6 +34,10 @@ type caseC11 struct {
 	Model    string     `json:"model"`
 	Plan     []api.Step `json:"plan"`
 	Ops      []int      `json:"ops"` // read-only operations interleaved between encodings
+	// Wire: the packet is not built through the API but decoded from the
+	// reference encoding of the model in this style.
+	Wire  bool      `json:"wire,omitempty"`
+	Style styleJSON `json:"style,omitempty"`
 }
 
 var roOpNames = []string{"WriteTo", "String", "Dump", "WellFormed", "Accessors"}
@@ -63,7 +68,17 @@ func checkC11(c caseC11) (frame []byte, sig, msg string) {
 	}
 	var first []byte
 	pan := guard.Call(func() {
-		p := api.Build(&m, c.Plan)
+		var p mq.ControlPacket
+		if c.Wire {
+			f, _ := ref.Encode(&m, c.Style.style())
+			q, err, rp := read(f)
+			if rp != nil || err != nil || q == nil {
+				return // not accepted: nothing to judge here (C03 decides acceptance)
+			}
+			p = q
+		} else {
+			p = api.Build(&m, c.Plan)
+		}
 		snap := api.Observe(p)
 		first, _, _ = api.Encode(p)
 		enc := 1
@@ -176,6 +191,21 @@ func TestC11(t *testing.T) {
 		if len(forChildren) < wantChildren && len(frame) < 4096 {
 			forChildren = append(forChildren, c)
 			firstEnc = append(firstEnc, frame)
+		}
+	})
+	r.Rapid(t, "decoded", vf.N(2500, 250000), func(t *rapid.T) {
+		typ := rapid.SampledFrom([]uint8{1, 1, 1, 2, 3, 3, 4, 5, 6, 7, 8, 8, 9, 10, 11, 14, 15}).Draw(t, "type")
+		m := genSpecValid(t, typ)
+		st := drawStyle(t)
+		ops := rapid.SliceOfN(rapid.IntRange(0, 4), 0, 10).Draw(t, "ops")
+		c := caseC11{ModelGob: packModel(m), Model: m.String(), Ops: ops, Wire: true, Style: st}
+		frame, sig, msg := checkC11(c)
+		r.Case(vf.FPs("wire", c.ModelGob, fmt.Sprint(st, ops)), len(ops) >= 3 || emittedWillProps(&m) >= 2, typeName(m.Type)+"/decoded", func() interface{} {
+			return map[string]interface{}{"model": m.String(), "decoded_from_wire": true, "read_only_ops": ops, "frame": hx(frame)}
+		})
+		if msg != "" {
+			r.Fail("determinism", c, sig, "%s\nmodel (decoded from the wire): %s", msg, m.String())
+			t.Fatalf("%s", msg)
 		}
 	})
 	if r.Failed() {
